@@ -369,3 +369,6 @@ def check(ctx):
     ctx.ob("R5", "_facade_update::re-evaluates", any(isinstance(n, ast.Call) and call_name(n) == "_on_config_device_change" for n in ast.walk(fu.node)), "the periodic update no longer re-evaluates the mode", fu.loc)
     ctx.note("NOT decided: wake-up latency and 'never sleeps longer than asked' as measured time (asyncio.wait semantics assumed).")
     ctx.assume("asyncio.wait([fut], timeout=d) returns when fut is done or after d seconds, whichever is first")
+    ctx.rule("R9", "a pump's change is heard wherever its byte lies in the update: the mode decision hangs on the device's change notification, and that on the item's range filter - the early return is taken only when the replaced range [offset, offset+len) and the item's bytes are disjoint, all orderings of the end points enumerated - a filter that misses an item in the LAST byte of a replaced segment (or any 1-byte segment) leaves the idle table in force while a pump runs, and no sleeper is woken (C03.R4 borrowed)")
+    from .c03 import intersection_filter as _if17
+    _if17(ctx.borrowed("R9", "C03"), repo)
